@@ -42,6 +42,8 @@ pub open spec fn wf(m: TM, n: NodeId, f: nat) -> bool
                 && !nodes(m, l, (f - 1) as nat).contains(n.item) && !nodes(m, r, (f - 1) as nat).contains(n.item),
         }))
 }
+/// an oversized bucket
+pub open spec fn over_cap(t: TNode, cap: u64) -> bool { t matches TNode::Desc(b) && b.len() > cap }
 pub open spec fn tree(m: TM, n: NodeId) -> bool { exists|f: nat| wf(m, n, f) }
 pub open spec fn ht(m: TM, n: NodeId) -> nat { choose|f: nat| wf(m, n, f) }
 pub open spec fn titems(m: TM, n: NodeId) -> Set<u32> { items(m, n, ht(m, n)) }
